@@ -228,12 +228,24 @@ DOCTYPES = ["<!DOCTYPE html>", "<!DOCTYPE html PUBLIC 'x\"><script>alert(1)</scr
             "<!DOCTYPE html PUBLIC '\"' '>'><script>alert(3)</script>"]
 
 
+# break-out start tags inside foreign content followed by names that are allow-listed only in the foreign namespace: the
+# namespace the FIRST parse gives these elements decides what the sanitizer lets through (round-6 seed C10-6)
+BREAKOUT_BITS = ['<svg><font color="red"><circle r="1"></circle></font></svg>', '<svg><g><font size=3><title>t</title><path d="M0 0"></path></font></g></svg>',
+                 "<math><b><mi>x</mi><mrow></mrow></b></math>", "<svg><p><path d=M0></path><a xlink:href='#a'>t</a></p></svg>",
+                 "<svg><div><linearGradient id=g></linearGradient><use xlink:href='#g'></use></div>", "<math><table><mtr><mtd>x</mtd></mtr></table></math>",
+                 "<svg><font face=f><animate attributeName=x></animate><set></set></font>", "<svg><b><svg><circle></circle></svg><circle></circle></b>",
+                 "<math><span><mglyph></mglyph><malignmark></malignmark><none></none></span>", "<svg><center><marker></marker><switch></switch></center>"]
+
+
 def run(ctx):
     rng = ctx.rng
+    for text in BREAKOUT_BITS + XSS_BITS:
+        one(ctx, text, {"omit_optional_tags": False}, "bit-alone")
+        one(ctx, "<div>" + text + "</div>", {"omit_optional_tags": True, "quote_attr_values": "always"}, "bit-alone")
     for i in range(ctx.scale(500, 15000)):
         parts = [rng.choice(DOCTYPES)] if rng.random() < 0.25 else []
         for _ in range(rng.randint(1, 4)):
-            parts.append(rng.choice(XSS_BITS) if rng.random() < 0.5 else gen.soup(rng, maxparts=5))
+            parts.append(rng.choice(XSS_BITS + BREAKOUT_BITS) if rng.random() < 0.5 else gen.soup(rng, maxparts=5))
         text = "".join(parts)
         opts = lexical.random_opts(rng)
         opts["omit_optional_tags"] = rng.random() < 0.6
